@@ -187,11 +187,11 @@ theorem endFailuresReported_once (f : Faults) (b : Body) : endFailuresReported (
   have hall := runBody_all b
   have h1 := not_mem_of_all hall (.commit false) rfl
   have h2 := not_mem_of_all hall (.rollback false) rfl
-  unfold transactOnce endFailuresReported retIs
+  unfold transactOnce endFailuresReported retHas
   generalize (runBody b).1 = evs at *
   generalize (runBody b).2 = out at *
   cases f.begin <;> cases out <;> cases f.commit <;> cases f.rollback <;> cases f.rollbackPanics <;>
-    cases f.commitPanics <;> simp [h1, h2, Err.of]
+    cases f.commitPanics <;> simp [h1, h2, Err.of, isCommitSrc, isRollbackSrc]
 
 theorem bodyErrorReported_once (f : Faults) (b : Body) : bodyErrorReported (transactOnce f b) = true := by
   unfold transactOnce bodyErrorReported reports
@@ -315,7 +315,7 @@ theorem holds_badPrefix (r : Result) (n : Nat) (hne : r.log ≠ []) (hb : r.log.
   have e7 : nilIffCommitOk { r with log := badPrefix n r.log } = nilIffCommitOk r := by
     simp only [nilIffCommitOk, contains_badPrefix (.commit true) (by simp)] <;> rfl
   have e8 : endFailuresReported { r with log := badPrefix n r.log } = endFailuresReported r := by
-    simp only [endFailuresReported, retIs, contains_badPrefix (.commit false) (by simp),
+    simp only [endFailuresReported, retHas, contains_badPrefix (.commit false) (by simp),
       contains_badPrefix (.rollback false) (by simp)] <;> rfl
   have e9 : bodyErrorReported { r with log := badPrefix n r.log } = bodyErrorReported r := rfl
   have e11 : beginFailureReported { r with log := badPrefix n r.log } = beginFailureReported r := by
@@ -413,12 +413,12 @@ theorem body_onConn (f : Faults) (b : Body) :
 theorem ret_onConn_opens (f : Faults) (b : Body) (h : f.opens = true) :
     (transactOnConn f b).ret =
       match (runBody b).2 with
-      | .panic => if f.rollbackPanics then some (Err.of .rollback)
-                  else some { is := if f.rollback then [] else [.rollback], says := [.panic] }
-      | .err e => if f.rollbackPanics then some (Err.of .rollback)
-                  else some (if f.rollback then e else { is := [.rollback], says := e.is ++ e.says })
-      | _ => if f.commitPanics then some (Err.of .commit)
-             else if f.commit then none else some (Err.of .commit) := by
+      | .panic => if f.rollbackPanics then some (Err.of (.rollback .plain))
+                  else some { is := if f.rollback then [] else [.rollback f.rollbackCls], says := [.panic] }
+      | .err e => if f.rollbackPanics then some (Err.of (.rollback .plain))
+                  else some (if f.rollback then e else { is := [.rollback f.rollbackCls], says := e.is ++ e.says })
+      | _ => if f.commitPanics then some (Err.of (.commit .plain))
+             else if f.commit then none else some (Err.of (.commit f.commitCls)) := by
   unfold Faults.opens at h
   unfold transactOnConn transactOnce
   cases h1 : f.givesUp <;> cases h2 : f.begin <;> simp_all
@@ -460,12 +460,12 @@ theorem ret_admitted (env : Env) (f : Faults) (b : Body) (h : env.admitted = tru
 theorem ret_opened (env : Env) (f : Faults) (b : Body) (h : opened env f = true) :
     (transactCtx env f b).ret =
       match (runBody b).2 with
-      | .panic => if f.rollbackPanics then some (Err.of .rollback)
-                  else some { is := if f.rollback then [] else [.rollback], says := [.panic] }
-      | .err e => if f.rollbackPanics then some (Err.of .rollback)
-                  else some (if f.rollback then e else { is := [.rollback], says := e.is ++ e.says })
-      | _ => if f.commitPanics then some (Err.of .commit)
-             else if f.commit then none else some (Err.of .commit) := by
+      | .panic => if f.rollbackPanics then some (Err.of (.rollback .plain))
+                  else some { is := if f.rollback then [] else [.rollback f.rollbackCls], says := [.panic] }
+      | .err e => if f.rollbackPanics then some (Err.of (.rollback .plain))
+                  else some (if f.rollback then e else { is := [.rollback f.rollbackCls], says := e.is ++ e.says })
+      | _ => if f.commitPanics then some (Err.of (.commit .plain))
+             else if f.commit then none else some (Err.of (.commit f.commitCls)) := by
   unfold opened at h
   simp only [Bool.and_eq_true] at h
   rw [(ret_admitted env f b h.1).1, ret_onConn_opens f b h.2]
